@@ -23,7 +23,6 @@ NOT_APPLICABLE = {
     "C11": "check not built yet in this session (planned, DESIGN.md section 3)",
     "C12": "check not built yet in this session (planned, DESIGN.md section 3)",
     "C14": "check not built yet in this session (planned, DESIGN.md section 3)",
-    "C16": "check not built yet in this session (planned, DESIGN.md section 3)",
     "C17": "check not built yet in this session (planned, DESIGN.md section 3)",
     "C18": "check not built yet in this session (planned, DESIGN.md section 3)",
     "C19": "check not built yet in this session (planned, DESIGN.md section 3)",
@@ -44,5 +43,12 @@ CHECK_META = {
               "into reads x buffer sizes x reader behaviours, plus seeded long streams under the scheduler; the space up to the bound "
               "is covered completely, beyond it sampled"),
         note="trusts the harness's own splitter (20 lines) as the specification of framing; bounded string length (6 quick / 8 thorough)",
+    ),
+    "C16": dict(
+        technique="deterministic simulation: real tailer + file stream on the real filesystem under a seeded scheduler and simulated pollers; file-generation reference model over enumerated + sampled rotation/truncation histories",
+        design_ref="DESIGN.md section 3, C16",
+        text=("exploration: every filesystem history of up to 3 (thorough: 4) steps and sampled longer ones, each under a seeded interleaving of "
+              "the tailer's goroutines; deliveries are compared with a generations model after every step"),
+        note="sampling of schedules; premise 'each step observed before the next' is implemented by an observation fixpoint; real kernel filesystem semantics of this sandbox",
     ),
 }
